@@ -82,7 +82,6 @@ CASES = [
     ("stats-resample-shape-test", ["C15"], "stats.py", "        or _orientations.shape[2:] != (3, 3)", "        or _orientations.shape[2] != _orientations.shape[3] != 3", M),
     # ---------------- io
     ("io-header-unvalidated", ["C16"], "io.py", "    if not _validate_scsv_schema(schema):\n        raise _err.SCSVError(\n            \"refusing to write invalid schema to stream.\"", "    if False:\n        raise _err.SCSVError(\n            \"refusing to write invalid schema to stream.\"", M),
-    ("io-wrong-handler", ["C16"], "io.py", "                    except ValueError:\n                        raise _err.SCSVError(\n                            f\"invalid data for column", "                    except KeyError:\n                        raise _err.SCSVError(\n                            f\"invalid data for column", M),
     ("io-no-unlink", ["C16"], "io.py", "        path.unlink(missing_ok=True)", "        pass", M),
     ("io-unquoted-fill", ["C16"], "io.py", "stream.write(f\"      fill: {_yaml_scalar(fill)}{os.linesep}\")", "stream.write(f\"      fill: {fill}{os.linesep}\")", M),
     ("io-terse-map", ["C16"], "io.py", "    \"c\": \"complex\",\n}", "    \"c\": \"cplx\",\n}", M),
@@ -164,6 +163,9 @@ CASES = [
     ("benign-corner-factor", ["C18"], "velocity.py", "    prefactor = 4 * plate_speed / (np.pi * (h**2 + v**2) ** 2)", "    r2 = h**2 + v**2\n    prefactor = 4 * plate_speed / (np.pi * r2 * r2)", B),
     ("benign-config-local", ["C19"], "io.py", "    n_provided = len(_params[\"disl_coefficients\"])", "    coeffs = _params[\"disl_coefficients\"]\n    n_provided = len(coeffs)", B),
     ("benign-gbs-where", ["C09", "C01"], "utils.py", "    fractions[mask] = gbs_threshold / n_grains\n", "    fractions[:] = np.where(mask, gbs_threshold / n_grains, fractions)\n", B),
+    ("benign-read-validate-local", ["C16"], "io.py", "        if not _validate_scsv_schema(schema):\n            raise _err.SCSVError(\n                f\"unable to parse SCSV schema from '{file}'.\"", "        schema_ok = _validate_scsv_schema(schema)\n        if not schema_ok:\n            raise _err.SCSVError(\n                f\"unable to parse SCSV schema from '{file}'.\"", B),
+    ("benign-save-cell-check-helper", ["C16"], "io.py", "                    try:\n                        _parse_scsv_cell(\n                            t, str(d), missingstr=schema[\"missing\"], fillval=f\n                        )\n                    except ValueError:\n                        raise _err.SCSVError(\n                            f\"invalid data for column '{names[i]}'.\"\n                            + f\" Cannot parse {d} as type '{t.__qualname__}'.\"\n                        ) from None\n",
+     "                    _check_scsv_cell(t, d, schema[\"missing\"], f, names[i])\n", B),
     ("benign-mindex-comprehension-loop", ["C14"], "diagnostics.py", "    misorientations_theory = np.array(\n        [\n            _stats.misorientations_random(bin_edges[i], bin_edges[i + 1], system)\n            for i in range(len(misorientations_count))\n        ]\n    )",
      "    theory = []\n    for lo, hi in zip(bin_edges[:-1], bin_edges[1:]):\n        theory.append(_stats.misorientations_random(lo, hi, system))\n    misorientations_theory = np.array(theory)", B),
     ("benign-mindex-nbins-local", ["C14"], "diagnostics.py", "    return (θmax / (2 * len(misorientations_count))) * np.sum(\n        np.abs(misorientations_theory - misorientations_count)\n    )",
@@ -229,6 +231,7 @@ CASES = [
 ]
 # the rename above needs both the definition and the use
 RENAME_ALSO = {"benign-pathline-rename": [("        jac=_ivp_jac,", "        jac=_ivp_jacobian,")],
+               "benign-save-cell-check-helper": [("def save_scsv(file, schema, data, **kwargs):", "def _check_scsv_cell(t, d, missing, f, name):\n    try:\n        _parse_scsv_cell(t, str(d), missingstr=missing, fillval=f)\n    except ValueError:\n        raise _err.SCSVError(\n            f\"invalid data for column '{name}'.\"\n            + f\" Cannot parse {d} as type '{t.__qualname__}'.\"\n        ) from None\n\n\ndef save_scsv(file, schema, data, **kwargs):")],
                "benign-writer-missing-used": [("            writer.writerow(names)\n", "            writer.writerow(names)\n            missing_marker = schema[\"missing\"]\n")]}
 REPLACE_ALL = {"benign-rename-helper", "benign-writer-missing-used", "benign-yaml-quoter-renamed"}
 
